@@ -296,4 +296,52 @@ theorem validated_codec_known (w : World) (t : TConf) (r : Req) (o : Op) (hv : v
                      rw [← hv]
                      simp_all)
 
+
+theorem resolveMethod_mem (t : TConf) (c : ClientForm) (r : Req) (m : MethodConf)
+    (h : resolveMethod t c r = .ok m) : m ∈ t.methods ∧ m.path = r.path := by
+  unfold resolveMethod at h
+  split at h
+  · simp at h
+  · rename_i m' hf
+    have hm : m' ∈ t.methods ∧ m'.path = r.path := by
+      refine ⟨List.mem_of_find?_eq_some hf, ?_⟩
+      have := List.find?_some hf
+      simpa using this
+    simp only at h
+    repeat' split at h
+    all_goals first
+      | (simp at h; done)
+      | (simp only [Except.ok.injEq] at h; rw [← h]; exact hm)
+
+/-- **Only a configured method is ever served**: the method of a validated operation is one of the transcoder's
+    methods, and it is the one the request path names (RPC-style paths `/<service>/<method>` resolve to exactly
+    that method; an unknown method is never validated). -/
+theorem validated_method_is_configured (w : World) (t : TConf) (r : Req) (o : Op) (hv : validate w t r = .ok o) :
+    o.conf ∈ t.methods ∧ o.conf.path = r.path := by
+  unfold validate at hv
+  split at hv
+  · simp at hv
+  · rename_i c _
+    split at hv
+    · simp at hv
+    · split at hv
+      · simp at hv
+      · rename_i m hm
+        have hmem := resolveMethod_mem t _ r m hm
+        split at hv
+        · simp at hv
+        · split at hv
+          · simp at hv
+          · split at hv
+            · simp at hv
+            · split at hv
+              · simp at hv
+              · simp only at hv
+                repeat' split at hv
+                all_goals first
+                  | (simp at hv; done)
+                  | (simp only [Except.ok.injEq] at hv
+                     rw [← hv]
+                     exact hmem)
+
 end Vanguard.C18
